@@ -1,25 +1,37 @@
 """C16 - tag commands retry transient errors and fail only as TagCommandError.
 
 L1: theorems of NfcVerif.Props.C16 about the executable model
-    (Model/Retry.lean): the retry primitives of Type 1/2/3/4 tags and every
-    public tag operation as a command program over them.
+    (Model/Retry.lean): the retry primitives of Type 1/2/3/4 tags, every
+    public tag operation as a command program over them, and sessions of
+    several operations on one tag object (NDEF cache, Type 2 target lost,
+    ISO-DEP error memory).
 L2: every public operation (ndef read, ndef write, presence check, format,
-    format+wipe, protect, protect with password, authenticate, dump) of 15
-    simulated tags (generic Type 1/2/3/4 and the Topaz, Ultralight,
-    Ultralight C, NTAG203, NTAG21x, FeliCa Standard, FeliCa Lite classes) is
+    format+wipe, protect, protect with password, authenticate, dump and the
+    low level commands of each class) of 21 simulated tags (generic Type
+    1/2/3/4 and the Topaz, Ultralight, Ultralight C, Ultralight EV1, NTAG203,
+    NTAG210/213, NTAG I2C, FeliCa Standard, FeliCa Lite / Lite-S classes) is
     run on the REAL code behind a fault-injecting frontend (sims/retry_sims.py)
-    and on the Lean model with the same fault script; outcome class, the
-    complete exchange log (which command, how often, which attempt was
-    answered) and the write commands executed by the tag are compared.
+    and on the Lean model with the same fault script and the same script of
+    clf.sense() results; outcome class, the complete exchange log (which
+    command, how often, which attempt was answered), the write commands
+    executed by the tag and whether the tag object / the frontend still have a
+    target are compared.  Sessions of two and three operations on the same tag
+    object (first one failing with each reason code, the next one meeting a
+    transient fault) are compared the same way for the Type 2 and Type 4
+    families.
 L3: the property stated on the real runs alone: outcome is a documented
     value or a TagCommandError whose general reason code matches the last
     failure; per primitive call at most the budgeted number of exchanges and
     nothing after the answered one; a burst within the budget is invisible
-    (same result and same tag memory as the fault-free run).
+    (same result and same tag memory as the fault-free run); exchange() is
+    never called without a target; an ISO-DEP answer is never taken for a
+    command the card has not executed; a write that reports success is in the
+    tag memory; nothing is sent after an unrecoverable ISO-DEP error.
 """
 import contextlib
 import io
 import logging
+import re
 
 from common import Model, exc_name
 
@@ -34,27 +46,88 @@ THEOREMS = [
     "NfcVerif.C16.isodep_errno",
     "NfcVerif.C16.op_outcome_documented",
     "NfcVerif.C16.op_outcome_documented_partial",
+    "NfcVerif.C16.tag_object_stays_sound",
     "NfcVerif.C16.t3_format_documented",
     "NfcVerif.C16.write_not_duplicated",
+    "NfcVerif.C16.session_outcomes_documented",
+    "NfcVerif.C16.session_outcomes_documented_partial",
+    "NfcVerif.C16.isodep_error_remembered",
+    "NfcVerif.C16.isodep_silent_after_error",
+    "NfcVerif.C16.isodep_session_silent_after_error",
+    "NfcVerif.C16.read_nak_reactivation",
+    "NfcVerif.C16.t2_silent_when_gone",
     "NfcVerif.C16.unknown_commerror_counterexample",
     "NfcVerif.C16.presence_check_not_retried",
     "NfcVerif.C16.lost_answer_write_twice",
+    "NfcVerif.C16.once_refused_on_retry",
 ]
 
-OPS = ["ndef", "write", "present", "format", "formatw", "protect", "protectpw", "auth", "dump"]
-DOCUMENTED = {"ndef": {"ndef", "none"}, "write": {"unit"}, "present": {"true", "false"},
+BASE_OPS = ["ndef", "write", "present", "format", "formatw", "protect", "protectpw", "auth", "dump"]
+DOCUMENTED = {"ndef": {"ndef", "none"}, "write": {"unit", "none"}, "write2": {"unit", "none"}, "present": {"true", "false"},
               "format": {"true", "false", "none"}, "formatw": {"true", "false", "none"},
               "protect": {"true", "false", "none"}, "protectpw": {"true", "false", "none"},
-              "auth": {"true", "false", "none"}, "dump": {"list"}}
-FOOTER = {"ulc": 4, "ntag203": 2, "ntag213": 5}
+              "protectrd": {"true", "false", "none"},
+              "auth": {"true", "false", "none"}, "auth0": {"true", "false", "none"}, "dump": {"list"}, "sig": {"data"}}
+FOOTER = {"ulc": 4, "ntag203": 2, "ntag213": 5, "ntag210": 4, "ulev1": 4, "nt3h": 7}
 PASSWORD = b"0123456789abcdef"
 NEWDATA = b"\xd1\x01\x03\x54\x02\x65\x6e"
+NEWDATA2 = b"\xd1\x01\x03\x54\x02\x64\x65"
+BLOCK16 = bytes(range(0x40, 0x50))
 BIGDATA = bytes((5 * i + 3) & 255 for i in range(600))      # Type 4: UPDATE BINARY commands of two ISO-DEP blocks
 L3ONLY = {"t4chain"}      # chained ISO-DEP commands: oracle only, the block protocol model is C12's
 _big = [False]
 
 _current = [None]
 _hooked = [False]
+
+FAMILY = {"t2": "t2", "t2big": "t2", "ul": "t2", "ulc": "t2", "ntag203": "t2", "ntag213": "t2", "ntag210": "t2",
+          "ulev1": "t2", "nt3h": "t2",
+          "t3": "t3", "t3std": "t3", "lite": "t3", "lites": "t3", "t1s": "t1", "t1d": "t1", "topaz": "t1",
+          "topaz512": "t1", "t4": "t4", "t4b": "t4", "t4slow": "t4", "t4chain": "t4"}
+NTAG21X = ("ntag213", "ntag210", "ulev1")
+# classes that differ from another simulated one by constants only: fewer positions / sessions in the quick tier
+SECONDARY = {"ul", "ntag210", "ulev1", "topaz", "t4b"}
+
+
+def family(kind):
+    return FAMILY[kind]
+
+
+# low level commands and vendor operations beyond the nine common ones: name -> (kinds, model family, model op)
+def extra_ops(kind):
+    fam = family(kind)
+    out = []
+    if fam == "t2":
+        out += ["rd4", "wr5", "sel1", "trx"]
+        if kind not in ("t2big", "nt3h"):
+            out.append("rdend")
+        if kind in NTAG21X:
+            out.append("sig")
+        if kind in NTAG21X or kind == "ulc":
+            out.append("protectrd")
+    elif fam == "t1":
+        out += ["rid", "rall", "rbyte", "rblock", "rseg", "wbyte", "wblock"]
+    elif fam == "t3":
+        out += ["poll", "rdsvc", "wrsvc"]
+        if kind == "t3std":
+            out += ["reqsvc", "reqrsp", "search", "reqsys"]
+        if kind in ("lite", "lites"):
+            out += ["auth0", "rdmac"]
+        if kind == "lites":
+            out.append("wrmac")
+    elif fam == "t4":
+        out += ["apdu", "trx"]
+    return out
+
+
+def ops_of(kind):
+    return BASE_OPS + extra_ops(kind)
+
+
+SEQ_OPS = {"rd4", "wr5", "sel1", "trx", "rdend", "rid", "rall", "rbyte", "rblock", "rseg", "wbyte", "wblock",
+           "poll", "rdsvc", "wrsvc", "reqsvc", "reqrsp", "search", "reqsys", "rdmac", "wrmac", "apdu"}
+for _o in SEQ_OPS:
+    DOCUMENTED[_o] = {"data"}
 
 
 def hook_errors():
@@ -73,15 +146,10 @@ def hook_errors():
     _hooked[0] = True
 
 
-def family(kind):
-    return {"t2": "t2", "t2big": "t2", "ul": "t2", "ulc": "t2", "ntag203": "t2", "ntag213": "t2",
-            "t3": "t3", "t3std": "t3", "lite": "t3", "t1s": "t1", "t1d": "t1", "topaz": "t1",
-            "topaz512": "t1", "t4": "t4", "t4slow": "t4", "t4chain": "t4"}[kind]
-
-
 def instrument(kind, air, tag):
-    """mark the calls of the retry primitive"""
+    """mark the calls of the retry primitive; ISO-DEP: note every answer taken for a command the card has not executed"""
     fam = family(kind)
+    air.stale = []
     if fam in ("t1", "t2"):
         orig = tag.transceive
 
@@ -98,10 +166,15 @@ def instrument(kind, air, tag):
         tag.send_cmd_recv_rsp = wrapped
     else:
         orig = tag._dep.exchange
+        sim = air.sim
 
-        def wrapped(*a, **kw):
+        def wrapped(command, *a, **kw):
             air.mark()
-            return orig(*a, **kw)
+            before = len(sim.log_apdu)
+            rsp = orig(command, *a, **kw)
+            if command is not None and len(sim.log_apdu) == before:
+                air.stale.append((bytes(command), bytes(rsp) if rsp is not None else None))
+            return rsp
         tag._dep.exchange = wrapped
 
 
@@ -117,30 +190,108 @@ def classify(r):
         return "list"
     if isinstance(r, nfc.tag.Tag.NDEF):
         return "ndef"
-    return "unit" if r == "unit" else "other:" + type(r).__name__
+    return r if r in ("unit", "data") else "other:" + type(r).__name__
+
+
+def is_t3_generic(tag):
+    return type(tag).__name__ in ("Type3Tag", "FelicaStandard")
 
 
 def perform(tag, op):
     if op == "ndef":
         return tag.ndef
-    if op == "write":
-        tag.ndef.octets = BIGDATA if _big[0] else NEWDATA
+    if op in ("write", "write2"):
+        ndef = tag.ndef
+        if ndef is None or not ndef.is_writeable:
+            return None
+        ndef.octets = BIGDATA if _big[0] else (NEWDATA if op == "write" else NEWDATA2)
         return "unit"
     if op == "present":
         return tag.is_present
     if op == "format":
-        return tag.format(0x10) if type(tag).__name__ in ("Type3Tag", "FelicaStandard") else tag.format()
+        return tag.format(0x10) if is_t3_generic(tag) else tag.format()
     if op == "formatw":
-        return tag.format(0x10, 0x5A) if type(tag).__name__ in ("Type3Tag", "FelicaStandard") else tag.format(wipe=0x5A)
+        return tag.format(0x10, 0x5A) if is_t3_generic(tag) else tag.format(wipe=0x5A)
     if op == "protect":
         return tag.protect()
     if op == "protectpw":
         return tag.protect(PASSWORD)
+    if op == "protectrd":
+        return tag.protect(PASSWORD, read_protect=True, protect_from=4)
     if op == "auth":
         return tag.authenticate(PASSWORD)
+    if op == "auth0":
+        return tag.authenticate(b"")
     if op == "dump":
         return tag.dump()
-    raise ValueError(op)
+    if op == "sig":
+        r = tag.signature
+        return "data" if isinstance(r, (bytes, bytearray)) and len(r) == 32 else r
+    # low level commands: whatever they return is data
+    if op == "rd4":
+        tag.read(4)
+    elif op == "rdend":
+        tag.read(len(tag.clf.sim.mem) // 4)
+    elif op == "wr5":
+        tag.write(5, b"\x01\x02\x03\x04")
+    elif op == "sel1":
+        tag.sector_select(1)
+    elif op == "trx":
+        if type(tag).__name__.startswith("Type4"):
+            tag.transceive(b"\x00\xB0\x00\x00\x02")
+        else:
+            tag.transceive(b"\x30\x04")
+    elif op == "rid":
+        tag.read_id()
+    elif op == "rall":
+        tag.read_all()
+    elif op == "rbyte":
+        tag.read_byte(8)
+    elif op == "rblock":
+        tag.read_block(3)
+    elif op == "rseg":
+        tag.read_segment(1)
+    elif op == "wbyte":
+        tag.write_byte(20, 0x5A)
+    elif op == "wblock":
+        tag.write_block(3, bytearray(range(8)))
+    elif op == "poll":
+        tag.polling(tag.sys, 1)
+    elif op == "rdsvc":
+        tag.read_from_ndef_service(1, 2)
+    elif op == "wrsvc":
+        tag.write_to_ndef_service(BLOCK16, 1)
+    elif op == "reqsvc":
+        import nfc.tag.tt3
+        tag.request_service([nfc.tag.tt3.ServiceCode(0, 0x0B)])
+    elif op == "reqrsp":
+        tag.request_response()
+    elif op == "search":
+        tag.search_service_code(1)
+    elif op == "reqsys":
+        tag.request_system_code()
+    elif op == "rdmac":
+        tag.read_with_mac(1, 2)
+    elif op == "wrmac":
+        tag.write_with_mac(BLOCK16, 5)
+    elif op == "apdu":
+        tag.send_apdu(0, 0xB0, 0, 0, mrl=2)
+    else:
+        raise ValueError(op)
+    return "data"
+
+
+def prelude(tag, op):
+    """what an application has done before the operation (fault-free, not part of the case)"""
+    if op in ("write", "write2", "apdu"):
+        if tag.ndef is None:
+            raise RuntimeError("simulated tag has no NDEF")
+    elif op == "trx" and type(tag).__name__.startswith("Type4"):
+        if tag.ndef is None:
+            raise RuntimeError("simulated tag has no NDEF")
+    elif op in ("rdmac", "wrmac"):
+        if tag.authenticate(b"") is not True:
+            raise RuntimeError("simulated tag does not authenticate")
 
 
 TIMED = ["nfc.tag", "nfc.tag.tt1", "nfc.tag.tt2", "nfc.tag.tt3", "nfc.tag.tt4",
@@ -167,31 +318,63 @@ def virtual_time(clock):
                 del mod.time
 
 
-def execute(kind, op, script, prepare=None):
-    """run one operation of a fresh tag under `script` -> dict"""
-    from sims import retry_sims as rs
-    with virtual_time(rs.Clock()) as clock:
-        return _execute(kind, op, script, prepare, clock)
+_des_memo = {}
 
 
-def _execute(kind, op, script, prepare, clock):
+class _MemoDes(object):
+    """pyDes.triple_des with remembered results: the pure-Python DES dominates the run time of the FeliCa Lite
+    and Ultralight C operations; challenges are fixed (`fixed_random`), so the same blocks recur all the time"""
+
+    def __init__(self, key, mode=0, iv=None, *a, **kw):
+        import pyDes
+        self._args = (bytes(key), mode, bytes(iv) if iv is not None else None)
+        self._real = pyDes.triple_des(key, mode, iv, *a, **kw)
+
+    def _do(self, what, data):
+        k = (what,) + self._args + (bytes(data),)
+        if k not in _des_memo:
+            _des_memo[k] = getattr(self._real, what)(data)
+        return _des_memo[k]
+
+    def encrypt(self, data, *a, **kw):
+        return self._do("encrypt", data) if not a and not kw else self._real.encrypt(data, *a, **kw)
+
+    def decrypt(self, data, *a, **kw):
+        return self._do("decrypt", data) if not a and not kw else self._real.decrypt(data, *a, **kw)
+
+
+def fast_des():
+    """the tag modules and the simulators use the remembering triple_des (same results, see _MemoDes)"""
+    import nfc.tag.tt2_nxp
+    import nfc.tag.tt3_sony
+    import pyDes
+    for mod in (nfc.tag.tt2_nxp, nfc.tag.tt3_sony):
+        if getattr(mod, "triple_des", None) is pyDes.triple_des:
+            mod.triple_des = _MemoDes
     from sims import retry_sims as rs
-    hook_errors()
-    sim, air, tag = rs.build(kind)
-    air.clock = clock
-    _big[0] = kind in L3ONLY
-    if prepare:
-        prepare(sim)
-    instrument(kind, air, tag)
-    if op == "write":
-        _current[0] = None
-        if tag.ndef is None:
-            raise RuntimeError("simulated tag %s has no NDEF" % kind)
-    air.arm(script)
-    _current[0] = air
+    rs.triple_des_factory[0] = _MemoDes
+
+
+@contextlib.contextmanager
+def fixed_random():
     import os
     urandom = os.urandom
     os.urandom = lambda n: bytes((7 * i + 1) & 255 for i in range(n))     # challenges of authenticate()
+    try:
+        yield
+    finally:
+        os.urandom = urandom
+
+
+def sim_memory(sim):
+    """tag content (the FeliCa Lite-S write counter is not content)"""
+    return bytes(sim.mem) if hasattr(sim, "mem") else (
+        b"".join(bytes(sim.blocks[k]) for k in sorted(sim.blocks) if k != 0x90) if hasattr(sim, "blocks") else bytes(sim.file))
+
+
+def one_op(air, tag, op):
+    """perform `op`, -> canonical outcome"""
+    _current[0] = air
     try:
         with contextlib.redirect_stdout(io.StringIO()):
             out = "ok " + classify(perform(tag, op))
@@ -199,10 +382,14 @@ def _execute(kind, op, script, prepare, clock):
         out = "exc " + exc_name(e)
     finally:
         _current[0] = None
-        os.urandom = urandom
+    return out
+
+
+def split_log(air, lo, raw_lo):
+    """events of air.log[lo:] -> (invocations, command octets per invocation)"""
     invs, cur = [], None
-    raws, k = [], 0            # per primitive call: octets of the command, for the duplicate-write oracle
-    for ev in air.log:
+    raws, k = [], raw_lo
+    for ev in air.log[lo:]:
         if ev == "|":
             cur = []
             invs.append(cur)
@@ -216,13 +403,71 @@ def _execute(kind, op, script, prepare, clock):
                 invs.append(cur)
                 raws.append(None)
             cur.append(ev)
-            raws[-1] = air.raw[k]
-            k += 1
-    nret = tag._dep.n_retry_nak if family(kind) == "t4" else 0
-    mem = bytes(sim.mem) if hasattr(sim, "mem") else (
-        b"".join(bytes(sim.blocks[k]) for k in sorted(sim.blocks)) if hasattr(sim, "blocks") else bytes(sim.file))
-    return {"out": out, "invs": invs, "invraw": raws, "n": sum(1 for e in air.log if e != "|" and e[0] != "!"),
-            "applied": [a for a in sim.applied], "raw": list(air.raw), "mem": mem, "nret": nret, "sim": sim}
+            if ev[0] != "?":
+                raws[-1] = air.raw[k]
+                k += 1
+    return invs, raws
+
+
+def flags_of(kind, air, tag):
+    """does the tag object think the target is gone / has the frontend dropped it"""
+    gone = family(kind) == "t2" and not tag.target
+    return "g%d l%d" % (1 if gone else 0, 1 if air.notarget else 0)
+
+
+def execute(kind, op, script, prepare=None, senses="", pre_ndef=False):
+    """run one operation of a fresh tag under `script` -> dict"""
+    from sims import retry_sims as rs
+    with virtual_time(rs.Clock()) as clock, fixed_random():
+        hook_errors()
+        sim, air, tag = rs.build(kind)
+        air.clock = clock
+        _big[0] = kind in L3ONLY
+        if prepare:
+            prepare(sim)
+        instrument(kind, air, tag)
+        _current[0] = None
+        if pre_ndef:
+            tag.ndef
+        prelude(tag, op)
+        air.arm(script, senses)
+        app_lo = len(sim.applied)
+        air.stale = []
+        out = one_op(air, tag, op)
+        invs, raws = split_log(air, 0, 0)
+        nret = tag._dep.n_retry_nak if family(kind) == "t4" else 0
+        return {"out": out, "invs": invs, "invraw": raws, "n": sum(1 for e in air.log if e != "|" and e[0] not in "!?"),
+                "applied": list(sim.applied[app_lo:]), "raw": list(air.raw), "mem": sim_memory(sim), "nret": nret, "sim": sim,
+                "flags": flags_of(kind, air, tag), "blind": sum(1 for e in air.log if e != "|" and e[0] == "?"),
+                "stale": list(air.stale), "sensed": air.sensed}
+
+
+def execute_session(kind, ops, scripts, senses):
+    """several operations on one tag object; scripts[i] / senses[i] are armed for operation i.
+    -> list of per-operation dicts (the fault letters and sense results really consumed are in 'used' / 'sensed')"""
+    from sims import retry_sims as rs
+    with virtual_time(rs.Clock()) as clock, fixed_random():
+        hook_errors()
+        sim, air, tag = rs.build(kind)
+        air.clock = clock
+        _big[0] = False
+        instrument(kind, air, tag)
+        air.arm("", "")
+        res = []
+        for op, sc, se in zip(ops, scripts, senses):
+            lo, raw_lo, app_lo, used_lo, stale_lo = len(air.log), len(air.raw), len(sim.applied), air.used, len(air.stale)
+            air.rearm(sc, se)
+            air.sensed = ""
+            out = one_op(air, tag, op)
+            invs, raws = split_log(air, lo, raw_lo)
+            used = air.used - used_lo
+            res.append({"out": out, "invs": invs, "invraw": raws, "applied": list(sim.applied[app_lo:]),
+                        "used": (sc + "a" * used)[:used], "sensed": air.sensed, "flags": flags_of(kind, air, tag),
+                        "blind": sum(1 for e in air.log[lo:] if e != "|" and e[0] == "?"),
+                        "stale": list(air.stale[stale_lo:]),
+                        "errs": [e[1] for e in air.log[lo:] if e != "|" and e[0] == "!"],
+                        "frames": [e for e in air.log[lo:] if e != "|" and e[0] not in "!?"]})
+        return res, sim_memory(sim), (tag._dep.n_retry_nak if family(kind) == "t4" else 0)
 
 
 def show_log(invs):
@@ -235,11 +480,11 @@ def show_log(invs):
     return " ".join(out)
 
 
-def applied_tokens(kind, r):
+def applied_tokens(kind, applied):
     """write commands executed by the simulated tag, as tokens"""
     fam = family(kind)
     out = []
-    for a in r["applied"]:
+    for a in applied:
         if fam == "t2":
             out.append("w%d" % (a[1] % 256))
         elif fam == "t1":
@@ -251,21 +496,28 @@ def applied_tokens(kind, r):
     return out
 
 
-def steps_of(r):
-    """fault-free run -> [(token, ans)] per primitive call; ans '+', '~', '-errno'"""
+def steps_of(kind, r):
+    """fault-free run -> [(token, ans)] per primitive call; ans '+', '~', '-errno', 'n' (READ answered with NAK),
+    '!errno' (accepted once: the identical frame is refused with errno when it is executed again)"""
     steps = []
-    for inv in r["invs"]:
+    sim = r["sim"]
+    for inv, raw in zip(r["invs"], r["invraw"]):
         ex = [e for e in inv if e[0] != "!"]
         if not ex:
             continue
         errs = [e[1] for e in inv if e[0] == "!"]
+        tok = ex[0][0]
+        once = sim.once(raw) if (raw is not None and hasattr(sim, "once")) else None
         if all(e[1] == "m" for e in ex):
             ans = "~"
         elif errs:
-            ans = "-%d" % errs[0]
+            nak = family(kind) == "t2" and raw is not None and raw[0] == 0x30 and errs[0] == 2
+            ans = "n" if nak else "-%d" % errs[0]
+        elif once is not None:
+            ans = "!%d" % once
         else:
             ans = "+"
-        steps.append((ex[0][0], ans))
+        steps.append((tok, ans))
     return steps
 
 
@@ -275,68 +527,82 @@ def enc(phases):
 
 
 class Plan(object):
-    """model request of one (kind, op): family, op, phases, value, nret"""
+    """model request of one (kind, op): family, op, phases, value, nret.  `cached`: the application has read
+    tag.ndef before (the NDEF object is cached in the tag object)"""
 
-    def __init__(self, kind, op):
-        self.kind, self.op = kind, op
-        base = execute(kind, op, "")
+    def __init__(self, kind, op, cached=False):
+        self.kind, self.op, self.cached = kind, op, cached
+        base = execute(kind, op, "", pre_ndef=cached)
         self.base = base
-        steps = steps_of(base)
+        steps = steps_of(kind, base)
         self.n = base["n"]
         self.value = base["out"][3:] if base["out"].startswith("ok ") else None
         self.t3format = None
         fam = family(kind)
-        mop = "format" if op == "formatw" else op
-        nndef = len(steps_of(execute(kind, "ndef", ""))) if op in ("format", "formatw", "protect", "dump") else 0
+        mop = {"formatw": "format", "write2": "write", "protectrd": "protectpw", "auth0": "auth"}.get(op, op)
+        uses_ndef = op in ("format", "formatw", "protect", "dump")
+        nndef = len(steps_of(kind, execute(kind, "ndef", ""))) if (uses_ndef and not cached) else 0
         ph = [steps]
         mfam = fam
+        toks = [t for t, _ in steps]
         if not steps:
             mop = "noop"
+        elif op in SEQ_OPS:
+            mop = "seq"
+            if op == "poll":
+                mfam = "t3p"
         elif fam == "t2":
             if mop in ("format",):
-                if kind in ("ntag203", "ntag213"):
+                if kind in ("ntag203", "ntag213", "ntag210"):      # classes with their own _format
                     mfam = "t2nxp"
-                    blank = execute(kind, op, "", prepare=lambda sim: sim.mem.__setitem__(slice(12, 16), bytes(4)))
-                    dw = [c for c in blank["raw"] if c[0] == 0xA2][:2]
+                    if cached:
+                        ph = [[], steps, [], [], []]
+                    else:
+                        blank = execute(kind, op, "", prepare=lambda sim: sim.mem.__setitem__(slice(12, 16), bytes(4)))
+                        dw = [c for c in blank["raw"] if c[0] == 0xA2][:2]
 
-                    def defaults(sim, dw=dw):
-                        for c in dw:
-                            sim.mem[c[1] * 4:c[1] * 4 + 4] = c[2:6]
-                    n2 = len(steps_of(execute(kind, "ndef", "", prepare=defaults)))
-                    again = steps_of(execute(kind, op, "", prepare=defaults))
-                    ph = [steps[:nndef], steps[nndef:], [("w%d" % c[1], "+") for c in dw], again[:n2], again[n2:]]
+                        def defaults(sim, dw=dw):
+                            for c in dw:
+                                sim.mem[c[1] * 4:c[1] * 4 + 4] = c[2:6]
+                        n2 = len(steps_of(kind, execute(kind, "ndef", "", prepare=defaults)))
+                        again = steps_of(kind, execute(kind, op, "", prepare=defaults))
+                        ph = [steps[:nndef], steps[nndef:], [("w%d" % c[1], "+") for c in dw], again[:n2], again[n2:]]
                 else:
                     ph = [steps[:nndef], steps[nndef:]]
             elif mop == "protect":
-                if kind in ("ulc", "ntag203", "ntag213"):
+                if kind in ("ulc", "ntag203") + NTAG21X:
                     mfam = "t2nxp"
                 else:
                     ph = [steps[:nndef], steps[nndef:]]
             elif mop == "protectpw":
                 if kind == "ulc":
                     mfam = "t2ulc"
-                    i = [t for t, _ in steps].index("a1")
+                    i = toks.index("a1")
                     ph = [steps[:i], steps[i:i + 1], steps[i + 1:]]
                 else:
                     mfam = "t2ntag"
-                    i = [t for t, _ in steps].index("pw")
+                    i = toks.index("pw")
                     ph = [steps[:i], steps[i:]]
             elif mop == "auth":
                 mfam = "t2ulc" if kind == "ulc" else "t2ntag"
                 ph = [steps[:1], steps[1:]] if kind == "ulc" else [steps]
+            elif mop == "sig":
+                mfam = "t2ntag"
             elif mop == "dump":
                 nf = FOOTER.get(kind, 0)
                 ph = [steps[:4], steps[4:len(steps) - nf], steps[len(steps) - nf:]]
+                if kind == "nt3h":
+                    mfam = "t2i2c"
         elif fam == "t1":
             if mop == "ndef":
                 ph = [steps[:1], steps[1:]]
             elif mop == "protect":
-                ph = [steps[:1], steps[1:nndef], steps[nndef:]]
+                ph = [steps[:1], steps[1:nndef], steps[nndef:]] if not cached else [[], [], steps]
             elif mop == "dump":
                 k = 2 if len(steps) > 1 and steps[1][0] == "R15" else 1
                 ph = [steps[:1], steps[1:k], steps[k:]]
         elif fam == "t3":
-            toks = [t for t, _ in steps]
+            lite = kind in ("lite", "lites")
             if mop == "ndef":
                 k = 1 if toks[0] == "po" else 0
                 ph = [steps[:k], steps[k:]]
@@ -350,25 +616,30 @@ class Plan(object):
                     mfam = "t3std"
                     k = max(i for i, t in enumerate(toks) if t.startswith("ss")) + 1
                     ph = [steps[:1], steps[1:2], steps[2:k], steps[k:]]
-                elif kind == "lite":
+                elif lite:
                     mfam = "lite"
                     ph = [steps[:14], steps[14:15], steps[15:]]
             elif mop == "format":
-                if kind == "lite":
+                if lite:
                     mfam = "lite"
                 else:
                     sim = base["sim"]
                     self.t3format = (sim.nmaxb, sim.nbr, sim.nbw, 1 if op == "formatw" else 0)
-            elif mop == "protect" and kind == "lite":
-                mfam = "lite"
+            elif mop == "protectpw" and kind == "lites" and "r136" in toks[toks.index("po"):] if "po" in toks else False:
+                # after the mutual authentication the NDEF read of a Lite-S also reads the memory configuration block
+                mfam, mop = "lites", "protect"
                 i = toks.index("po")
-                n3 = len(steps_of(execute(kind, "ndef", "")))
-                ph = [steps[:i], steps[i:i + 1], steps[i + 1:i + n3], steps[i + n3:i + n3 + 2], steps[i + n3 + 2:]]
-            elif mop == "protectpw" and kind == "lite":
+                j = len(steps) - 3
+                ph = [steps[:i], steps[i:i + 1], steps[i + 1:i + 2], steps[j:j + 2], steps[j + 2:], steps[i + 2:i + 3], steps[i + 3:j]]
+            elif mop in ("protect", "protectpw") and lite:
                 mfam, mop = "lite", "protect"
-                i = toks.index("po")
-                n3 = len(steps_of(execute(kind, "ndef", "")))
-                ph = [steps[:i], steps[i:i + 1], steps[i + 1:i + n3], steps[i + n3:i + n3 + 2], steps[i + n3 + 2:]]
+                if cached:
+                    i = len(steps) - 3          # attribute block read and write, memory configuration write
+                    ph = [steps[:i], [], [], steps[i:i + 2], steps[i + 2:]]
+                else:
+                    i = toks.index("po")
+                    n3 = len(steps_of(kind, execute(kind, "ndef", "")))
+                    ph = [steps[:i], steps[i:i + 1], steps[i + 1:i + n3], steps[i + n3:i + n3 + 2], steps[i + n3 + 2:]]
             elif mop == "auth":
                 mfam = "lite"
         elif fam == "t4":
@@ -376,11 +647,14 @@ class Plan(object):
                 ph = [steps[:nndef], steps[nndef:]]
         self.mfam, self.mop, self.phases = mfam, mop, ph
 
-    def request(self, cfg, script):
+    def spec(self):
+        return "%s|%s|%s|%s" % (self.mfam, self.mop, self.value or "none", enc(self.phases))
+
+    def request(self, cfg, script, senses=""):
         if self.t3format:
             return "t3format %s %d %d %d %d %s" % ((cfg,) + self.t3format + (script or "-",))
-        return "run %s %s %s %s %d %s %s" % (cfg, self.mfam, self.mop, self.value or "none", self.base["nret"],
-                                             script or "-", enc(self.phases))
+        return "run %s %s %s %s %d %s %s %s" % (cfg, self.mfam, self.mop, self.value or "none", self.base["nret"],
+                                                script or "-", senses or "-", enc(self.phases))
 
 
 def probe_cfg():
@@ -394,24 +668,28 @@ def probe_cfg():
             + bit("t1d", "ndef", "attt", "TagCommandError(0)"))
 
 
-NOSTATUS = {"rr", "sc", "ss0", "ss1", "ss2", "ss3"}
+NOSTATUS = {"rr", "sc", "rq", "ss0", "ss1", "ss2", "ss3"}
 BUDGET = 3
 
 
 def scripts_for(ck, plan, rng):
-    """fault scripts of one operation: position x kind x burst (all positions when short, sampled otherwise)"""
+    """fault scripts of one operation: position x kind x burst (all positions when short, sampled otherwise),
+    two and three faults at different positions, trains, random mixes"""
     n = plan.n
     fam = family(plan.kind)
     if n == 0:
-        return [""]
-    limit = (40 if ck.thorough else 7)
-    if n <= limit:
+        return [""], True
+    limit = (48 if ck.thorough else (6 if plan.kind in SECONDARY else 12))
+    if n > 60:
+        limit = 24 if ck.thorough else 8          # long operations (dump, wipe): first / last / sampled positions
+    exhaustive = n <= limit
+    if exhaustive:
         pos = list(range(n))
     else:
         pos = sorted(set([0, 1, n - 2, n - 1] + rng.sample(range(n), limit - 4)))
     letters = list("txpTXP") + ["o", "c"]
     out = [""]
-    toks = [e[0] for inv in plan.base["invs"] for e in inv if e[0] != "!"]
+    toks = [e[0] for inv in plan.base["invs"] for e in inv if e[0] not in "!?"]
     digits = "0123" if fam == "t3" and not any(t in NOSTATUS for t in toks) else ""
     for p in pos:
         for l in letters:
@@ -429,6 +707,21 @@ def scripts_for(ck, plan, rng):
             # parse the remainder themselves (C08), only the header cuts are injected there
             for l in ("01" if toks[p] in NOSTATUS else "0123"):
                 out.append("a" * p + l)
+    # double and triple faults at different positions (every pair / triple of positions when the operation is
+    # short, sampled otherwise), classes mixed, command lost / answer lost mixed
+    pairs = [(p, q) for p in range(n) for q in range(p + 1, n + 2)]
+    if len(pairs) > (60 if ck.thorough else 10):
+        pairs = rng.sample(pairs, 60 if ck.thorough else 10)
+    for p, q in pairs:
+        for l1, l2 in (("t", "x"), ("T", "t"), ("x", "P"), ("tt", "X"), ("p", "tt")):
+            sc = "a" * p + l1
+            out.append(sc + "a" * max(0, q - len(sc)) + l2)
+    for _ in range(24 if ck.thorough else 6):
+        ps = sorted(rng.sample(range(n + 3), 3))
+        sc = ""
+        for p in ps:
+            sc += "a" * max(0, p - len(sc)) + rng.choice(["t", "x", "T", "X", "p", "tt", "xx", "tX"])
+        out.append(sc)
     # trains of short bursts (each within the budget, separated by answers): all of them must be absorbed
     for _ in range(40 if ck.thorough else 10):
         sc, at = "", 0
@@ -441,7 +734,7 @@ def scripts_for(ck, plan, rng):
         ln = rng.randrange(1, min(n + 6, 40))
         out.append("".join(rng.choice("aaaaatxpTXP" + (digits if rng.random() < 0.2 else "")
                                       + ("oc" if rng.random() < 0.15 else "")) for _ in range(ln)))
-    return out
+    return out, exhaustive
 
 
 def finding_key(kind, op, name, script, invs):
@@ -459,41 +752,50 @@ def finding_key(kind, op, name, script, invs):
         return "t2-sector-select-assert"
     if name in ("BrokenLinkError", "CommunicationError") and fam == "t4":
         return "t4-unknown-commerror-raw"
+    if name == "AttributeError" and kind == "ulev1" and op in ("protect", "protectpw", "protectrd"):
+        return "ulev1-protect-attributeerror"
     return "%s-%s-raises-%s" % (fam, op, name)
 
 
 CLASS_ERRNO = {"t": 0, "T": 0, "m": 0, "x": -1, "X": -1, "p": -2, "P": -2}
 
 
-def oracle(ck, plan, script, r):
-    """the property on one real run"""
-    kind, op = plan.kind, plan.op
+def oracle_outcome(ck, kind, op, script, out, invs, what, replay, after_gone=False, sticky=None):
+    """documented result or TagCommandError with the matching reason code"""
     fam = family(kind)
-    replay = {"kind": kind, "op": op, "script": script, "outcome": r["out"], "log": show_log(r["invs"])}
-    what = "%s %s under fault script '%s': " % (kind, op, script)
-    out = r["out"]
     if out.startswith("exc "):
         name = out[4:]
         if not name.startswith("TagCommandError("):
-            ck.fail(finding_key(kind, op, name, script, r["invs"]), what + "raises " + name, replay)
+            ck.fail(finding_key(kind, op, name, script, invs), what + "raises " + name, replay)
         else:
             errno = int(name[16:-1])
-            last = [e for inv in r["invs"] for e in inv if e[0] != "!"]
+            last = [e for inv in invs for e in inv if e[0] not in "!?"]
+            # the tag object has given up before (Type 2 target gone: TIMEOUT_ERROR, ISO-DEP: the stored code)
+            given_up = (after_gone and errno == 0) or (sticky is not None and errno == sticky)
             if errno <= 0 and last:
                 want = CLASS_ERRNO.get(last[-1][1])
                 if want is None and fam in ("t3", "t4") and last[-1][1] in "ocOC":
                     want = -1          # repaired tt3/tt4: unknown class reported as RECEIVE_ERROR
-                if want != errno:
+                if last[-1][1] == "a" and fam == "t2" and last[-1][0].startswith("r") and after_gone:
+                    want = -1          # READ answered with NAK and the tag not found again: RECEIVE_ERROR
+                if want != errno and not given_up:
                     ck.fail("reason-code-mismatch", what + "TagCommandError(%d) after last attempt '%s'" % (errno, last[-1][1]), replay)
+            elif errno <= 0 and not last and not given_up:
+                ck.fail("error-without-exchange", what + "TagCommandError(%d) although no command was sent" % errno, replay)
     else:
         if out[3:] not in DOCUMENTED[op]:
             ck.fail("undocumented-result", what + "returns " + out[3:], replay)
-    for inv in ([] if kind in L3ONLY else r["invs"]):
-        ex = [e for e in inv if e[0] != "!"]
+
+
+def oracle_calls(ck, kind, op, invs, raws, nret, what, replay):
+    """per primitive call: budget, nothing after an answer, one command; answered writes are not sent again"""
+    fam = family(kind)
+    for inv in invs:
+        ex = [e for e in inv if e[0] not in "!?"]
         if not ex:
             continue
         if fam == "t4":
-            bound = 1 if op == "present" else r["nret"] + 2
+            bound = 1 if op == "present" else nret + 2
         else:
             bound = 1 if ex[0][0] == "s2" else BUDGET
         if len(ex) > bound:
@@ -508,126 +810,445 @@ def oracle(ck, plan, script, r):
             ck.fail("primitive-mixed-commands", what + "one primitive call sent different commands %s" % ex, replay)
     # a state-changing command that was answered is not sent again by the next call of the primitive
     prev = None
-    for inv, raw in ([] if kind in L3ONLY else zip(r["invs"], r["invraw"])):
-        ex = [e for e in inv if e[0] != "!"]
+    for inv, raw in zip(invs, raws):
+        ex = [e for e in inv if e[0] not in "!?"]
         if not ex:
             continue
         tok = ex[0][0]
         if prev is not None and prev == raw and (tok[0] in "wW" or tok.startswith("up")):
             ck.fail("write-repeated-after-answer", what + "write command %s was answered and is sent again" % tok, replay)
         prev = raw if ex[-1][1] == "a" and not any(e[0] == "!" for e in inv) else None
+
+
+def oracle(ck, plan, script, r, senses=""):
+    """the property on one real run"""
+    kind, op = plan.kind, plan.op
+    fam = family(kind)
+    replay = {"kind": kind, "op": op, "script": script, "senses": senses, "outcome": r["out"], "log": show_log(r["invs"])}
+    what = "%s %s under fault script '%s'%s: " % (kind, op, script, (" sense results '%s'" % senses) if senses else "")
+    out = r["out"]
+    oracle_outcome(ck, kind, op, script, out, r["invs"], what, replay, after_gone="0" in r["sensed"])
+    if r["blind"]:
+        ck.fail("exchange-without-target", what + "clf.exchange() called %d time(s) after the frontend had lost its target" % r["blind"], replay)
+    if r["stale"]:
+        ck.fail("t4-stale-answer", what + "answer %s accepted for command %s which the card has not executed"
+                % (r["stale"][0][1].hex() if r["stale"][0][1] else None, r["stale"][0][0].hex()), replay)
+    if kind not in L3ONLY:
+        oracle_calls(ck, kind, op, r["invs"], r["invraw"], r["nret"], what, replay)
     # a train of bursts, each within the budget and separated by two answers, is invisible
-    import re
     runs = re.findall(r"[^a]+", script)
     base_toks = [e[0] for inv in plan.base["invs"] for e in inv if e[0] != "!"]
+    base_mute = any(e[1] == "m" and e[0] != "s2" for inv in plan.base["invs"] for e in inv if e[0] != "!")
     lim = min(2, r["nret"]) if fam == "t4" else 2
-    if (len(runs) >= 2 and set(script) <= set("atxTX") and all(len(x) <= lim for x in runs)
-            and not re.search(r"[^a]a[^a]", script) and "s2" not in base_toks and not (fam == "t4" and op == "present")):
+    if (len(runs) >= 2 and set(script) <= set("atxTX") and all(len(x) <= lim for x in runs) and not senses
+            and not re.search(r"[^a]a[^a]", script) and "s2" not in base_toks and not (fam == "t4" and op == "present") and not base_mute
+            and not any(a.startswith("!") for _, a in steps_of(kind, plan.base))):
         if out != plan.base["out"] or r["mem"] != plan.base["mem"]:
             ck.fail("transient-error-not-absorbed", what + "bursts within the retry budget change the result to %s (fault-free: %s)"
                     % (out, plan.base["out"]), replay)
     # a burst within the budget is invisible
     body = script.lstrip("a")
     absorb = min(2, r["nret"]) if fam == "t4" and op != "present" else 2
-    if body and len(body) <= absorb and len(set(body)) == 1 and body[0] in "txpTXP" and len(script) - len(body) < plan.n:
+    if body and len(body) <= absorb and len(set(body)) == 1 and body[0] in "txpTXP" and len(script) - len(body) < plan.n and not senses:
         target = None
+        once = False
         idx = 0
-        for inv in plan.base["invs"]:
+        mute = False
+        for inv, raw in zip(plan.base["invs"], plan.base["invraw"]):
             for e in inv:
-                if e[0] != "!":
+                if e[0] not in "!?":
                     if idx == len(script) - len(body):
                         target = e[0]
+                        mute = any(x[1] == "m" for x in inv if x[0] != "!")
+                        once = hasattr(plan.base["sim"], "once") and raw is not None and plan.base["sim"].once(raw) is not None
                     idx += 1
-        by_design = target == "s2" or (fam == "t4" and body[0] in "pP")
+        # by design: the unacknowledged second SECTOR SELECT frame, ISO-DEP protocol errors, and a command the
+        # tag accepts only once whose answer was lost (the retry is refused by the tag)
+        by_design = target == "s2" or mute or (fam == "t4" and body[0] in "pP") or (once and body[0] in "TXP")
         if not by_design and (out != plan.base["out"] or r["mem"] != plan.base["mem"]):
             key = "t4-presence-check-not-retried" if (fam == "t4" and op == "present") else "transient-error-not-absorbed"
             ck.fail(key, what + "a burst of %d at command %s changes the result to %s (fault-free: %s)"
                     % (len(body), target, out, plan.base["out"]), replay)
 
 
+def norm_t1(s):
+    """Type 1 write tokens of the model carry the address, the simulator logs (kind, address)"""
+    return s.replace("w?", "we").replace("W?", "We").replace("wn", "we").replace("Wn", "We")
+
+
+def same_line(fam, real, rep):
+    if fam != "t1":
+        return real == rep
+    a, b = real.split(" # "), rep.split(" # ")
+    if len(a) != len(b) or len(a) < 3:
+        return False
+    return a[:2] == b[:2] and norm_t1(a[2]) == norm_t1(b[2]) and a[3:] == b[3:]
+
+
+# ------------------------------------------------------------------ sessions
+# operations of a session: name -> (evaluates tag.ndef first, result when that is None, True clears the NDEF cache,
+#                                   changes the tag content, command sequence depends on the tag content)
+def session_ops(kind):
+    fam = family(kind)
+    if fam == "t4":
+        return {"ndef": (1, "none", 0, 0, 1), "write": (1, "none", 0, 1, 0), "write2": (1, "none", 0, 1, 0),
+                "present": (0, "none", 0, 0, 0), "dump": (1, "list", 0, 0, 1), "format": (1, "false", 1, 0, 0),
+                "formatw": (1, "false", 1, 1, 0), "apdu": (0, "none", 0, 0, 0)}
+    if fam == "t2":
+        d = {"ndef": (1, "none", 0, 0, 1), "write": (1, "none", 0, 1, 1), "present": (0, "none", 0, 0, 0),
+             "dump": (0, "none", 0, 0, 0), "rd4": (0, "none", 0, 0, 0), "wr5": (0, "none", 0, 1, 0)}
+        if kind not in ("t2big", "nt3h"):
+            d["rdend"] = (0, "none", 0, 0, 0)
+        if kind in ("t2", "ul", "ulc"):
+            d["format"] = (1, "false", 1, 1, 1)
+        if kind in ("t2", "ul"):
+            d["protect"] = (1, "false", 1, 1, 1)
+        if kind in NTAG21X:
+            d["sig"] = (0, "none", 0, 0, 0)
+            d["auth"] = (0, "none", 1, 0, 0)
+        if kind == "ulc":
+            d["auth"] = (0, "none", 1, 0, 0)
+        return d
+    # Type 1 / Type 3: no link state in the tag object; sessions are judged by the oracle only
+    # (Type 1 dump() inverts and restores every block of a dynamic tag to find the end of memory: it changes content)
+    d = {"ndef": (1, "none", 0, 0, 1), "write": (1, "none", 0, 1, 1), "present": (0, "none", 0, 0, 0),
+         "dump": (0, "none", 0, 1 if fam == "t1" else 0, 0)}
+    return d
+
+
+SESSION_TIED = {"t2", "ul", "ulc", "ntag203", "ntag213", "ntag210", "t4", "t4b", "t4slow"}
+
+
+def fatal_scripts(kind, nret, n, rng, thorough):
+    """scripts for the first operation of a session: at a few positions a persisting error of each class (command
+    lost / answer lost), a transient one, an unknown class"""
+    fam = family(kind)
+    if n == 0:
+        return [""]
+    pos = sorted(set([0, n - 1] + rng.sample(range(n), min(n, 6 if thorough else 1))))
+    burst = nret + 2 if fam == "t4" else BUDGET
+    out = [""]
+
+    def persist(l):
+        return l * (1 if (fam == "t4" and l in "pP") else burst)
+    for p in pos:
+        if thorough:
+            letters = "txpTXP"
+        else:
+            # the timeout (reason code 0) always, one other class with the command lost, one with the answer lost
+            letters = "t" + rng.choice("xp") + rng.choice("TXP")
+        for l in letters:
+            out.append("a" * p + persist(l))
+        out.append("a" * p + "t")
+        if fam == "t4" and (thorough or p == 0):
+            out.append("a" * p + "o")
+        if thorough:
+            out.append("a" * p + "T" + "t" * (burst - 1))
+            out.append("a" * p + "X")
+    return out
+
+
+def follow_scripts(n, rng, thorough):
+    if n == 0:
+        return [""]
+    if not thorough:
+        return ["", "t", "a" * (n - 1) + rng.choice("TX")]
+    out = [""]
+    for p in sorted(set([0, n - 1, rng.randrange(n)])):
+        out += ["a" * p + "t", "a" * p + "T", "a" * p + "x", "a" * p + "tt"]
+    return out
+
+
+def run_sessions(ck, model, cfg, rng, plans):
+    from sims import retry_sims as rs
+    reqs, reals, meta = [], [], []
+    memo = {}
+
+    def plan(kind, op, cached):
+        key = (kind, op, cached)
+        if key not in memo:
+            memo[key] = Plan(kind, op, cached=cached)
+        return memo[key]
+
+    for kind in rs.KINDS:
+        if kind in L3ONLY or kind in ("t2big", "nt3h"):
+            continue
+        table = session_ops(kind)
+        fam = family(kind)
+        names = sorted(table)
+        try:
+            pl_ndef = plan(kind, "ndef", False)
+            pl = {op: (plan(kind, op, False), plan(kind, op, True)) for op in names}
+        except Exception as e:  # noqa
+            ck.fail("tie:session-plan", "%s: the fault-free runs do not have the expected shape: %s: %s" % (kind, type(e).__name__, e),
+                    {"kind": kind})
+            continue
+        try:
+            ref_mem = {op: execute(kind, op, "", pre_ndef=True)["mem"] for op in names if table[op][3]}
+        except Exception as e:  # noqa
+            ck.fail(harness_key(e, fam, "session"), "%s: fault-free reference runs failed: %s: %s" % (kind, type(e).__name__, e), {"kind": kind})
+            continue
+        seqs = [(a, b) for a in names for b in names]
+        if fam in ("t2", "t4"):
+            # three operations: cache and link state carried over two boundaries
+            third = [x for x in ("ndef", "write", "write2", "present", "dump") if x in table]
+            seqs += [(a, b, c) for a in names for b in third for c in third if rng.random() < (0.5 if ck.thorough else 0.08)]
+        if not ck.thorough and (kind not in SESSION_TIED or kind in SECONDARY):
+            seqs = [s for s in seqs if rng.random() < 0.3]
+        for ops in seqs:
+            n1 = pl[ops[0]][0].n
+            firsts = fatal_scripts(kind, pl_ndef.base["nret"], n1, rng, ck.thorough)
+            # the tag leaves the field after a NAK: sense results for the first operation that meets one
+            naks = [i for i, o in enumerate(ops) if any(a == "n" for _, a in steps_of(kind, pl[o][0].base))]
+            for s1 in firsts:
+                seconds = follow_scripts(max(pl[ops[1]][0].n, pl[ops[1]][1].n), rng, ck.thorough)
+                for s2 in seconds:
+                    for se in (["", "0", "10"] if naks else [""]):
+                        scripts = [s1, s2] + [""] * (len(ops) - 2)
+                        senses = [""] * len(ops)
+                        if naks:
+                            senses[naks[0]] = se
+                        try:
+                            one_session(ck, kind, ops, scripts, senses, table, pl, pl_ndef, ref_mem, cfg, reqs, reals, meta)
+                        except Exception as e:  # noqa
+                            ck.fail(harness_key(e, fam, "session"), "%s session %s scripts %s sense results %s: %s: %s"
+                                    % (kind, "+".join(ops), scripts, senses, type(e).__name__, e),
+                                    {"kind": kind, "ops": list(ops), "scripts": scripts, "senses": senses})
+    replies = model.ask_many(reqs)
+    bad = 0
+    for (kind, ops, scripts, senses, ntied), req, real, rep in zip(meta, reqs, reals, replies):
+        fam = family(kind)
+        ra, rb = real.split(" || "), rep.split(" || ")
+        same = len(ra) == len(rb) and all(same_line(fam, x, y) for x, y in zip(ra, rb))
+        ck.case(("session", kind, ops, tuple(scripts), tuple(senses)), True, "session:%s:%d" % (fam, ntied),
+                sample={"kind": kind, "ops": list(ops), "scripts": scripts, "senses": senses, "real": real[:200]})
+        if not same:
+            bad += 1
+            ck.fail("tie:session-model", "%s %s scripts %s senses %s: real %s | model %s" % (kind, "+".join(ops), scripts, senses, real[:400], rep[:400]),
+                    {"kind": kind, "ops": list(ops), "scripts": scripts, "senses": senses, "request": req, "real": real, "model": rep})
+    ck.tie("session-model", len(reqs), bad, exhaustive=False)
+
+
+def one_session(ck, kind, ops, scripts, senses, table, pl, pl_ndef, ref_mem, cfg, reqs, reals, meta):
+    fam = family(kind)
+    res, mem, nret = execute_session(kind, ops, scripts, senses)
+    replay = {"kind": kind, "ops": list(ops), "scripts": scripts, "senses": senses,
+              "outcomes": [r["out"] for r in res], "log": " / ".join(show_log(r["invs"]) for r in res)}
+    what = "%s session %s, fault scripts %s%s: " % (kind, " -> ".join(ops), scripts,
+                                                    (", sense results %s" % senses) if any(senses) else "")
+    # ---- oracle on the real run
+    fatal = None          # ISO-DEP: reason code of the first unrecoverable error
+    gone = False
+    for i, (op, r) in enumerate(zip(ops, res)):
+        w = what + "operation %d (%s) " % (i + 1, op)
+        oracle_outcome(ck, kind, op, scripts[i], r["out"], r["invs"], w, replay, after_gone=gone or "0" in r["sensed"], sticky=fatal)
+        oracle_calls(ck, kind, op, r["invs"], r["invraw"], nret, w, replay)
+        if r["blind"]:
+            ck.fail("exchange-without-target", w + "clf.exchange() called %d time(s) after the frontend had lost its target" % r["blind"], replay)
+        if r["stale"]:
+            ck.fail("t4-stale-answer-after-error" if fatal is not None else "t4-stale-answer",
+                    w + "returned the answer %s for command %s which the card has not executed"
+                    % (r["stale"][0][1].hex() if r["stale"][0][1] else None, r["stale"][0][0].hex()), replay)
+        if fam == "t4" and fatal is not None and any(e[0] != "nak" or op != "present" for e in r["frames"]):
+            ck.fail("t4-command-after-unrecoverable-error", w + "sent %s after an earlier operation had ended with the unrecoverable error %d"
+                    % (" ".join("%s.%s" % e for e in r["frames"][:6]), fatal), replay)
+        if gone and r["frames"]:
+            ck.fail("t2-command-after-target-gone", w + "sent %s although the re-activation of the tag had failed" %
+                    " ".join("%s.%s" % e for e in r["frames"][:6]), replay)
+        if fam == "t4" and fatal is None:
+            link = [e for e in r["errs"] if e <= 0]
+            if link and r["frames"] and r["frames"][-1][1] not in "a0123":
+                fatal = link[0]
+        if "0" in r["sensed"] and r["sensed"].endswith("0"):
+            gone = True
+        elif r["sensed"].endswith("1"):
+            gone = False
+    # a write that reports success is in the tag memory (content changing operations of the session: only writes)
+    changing = [(op, r) for op, r in zip(ops, res) if table[op][3]]
+    if changing and all(op in ("write", "write2") for op, _ in changing):
+        op, r = changing[-1]
+        if r["out"] == "ok unit" and mem != ref_mem[op]:
+            ck.fail("write-reported-success-not-applied", what + "%s returned normally but the tag does not hold the data" % op, replay)
+    if kind not in SESSION_TIED:
+        ck.case(("session", kind, ops, tuple(scripts), tuple(senses)), True, "session-oracle:%s" % fam)
+        return
+    # ---- the part of the session the model covers: no operation whose command sequence depends on the tag
+    # content after an operation that may have changed it
+    ntied, changed, cached = 0, False, False
+    for op, r in zip(ops, res):
+        uses, noneval, clears, changes, depends = table[op]
+        reads = uses and not cached          # tag.ndef is evaluated without a cached object: the NDEF data is read
+        if changed and (reads or (depends and op != "ndef")):
+            break
+        ntied += 1
+        if uses:
+            cached = r["out"] != "ok " + ("none" if op == "ndef" else noneval) if reads else True
+            if op == "ndef":
+                cached = r["out"] == "ok ndef"
+        if clears and r["out"] == "ok true":
+            cached = False
+        changed = changed or bool(changes)
+    script = "".join(r["used"] for r in res[:ntied])
+    sens = "".join(r["sensed"] for r in res[:ntied])
+    specs = []
+    for op in ops[:ntied]:
+        uses, noneval, clears = table[op][0], table[op][1], table[op][2]
+        specs.append("%d/%s/%d/%s/%s" % (uses, noneval, clears, pl[op][0].spec(), pl[op][1].spec()))
+    reqs.append("sess %s %d %s %s %s %s" % (cfg, nret, script or "-", sens or "-", pl_ndef.spec(), " ".join(specs)))
+    lines = ["%s # %s # %s # %s" % (r["out"], show_log(r["invs"]), ",".join(applied_tokens(kind, r["applied"])) or "-", r["flags"])
+             for r in res[:ntied]]
+    reals.append(" || ".join(lines + ["end # " + res[ntied - 1]["flags"]]))
+    meta.append((kind, ops, scripts, senses, ntied))
+
+
+def harness_key(e, fam, op):
+    """an exception that escaped from the code under test into the harness (outside the operation itself) is a failing
+    input; one raised by the harness' own bookkeeping means the correspondence can no longer be established"""
+    import traceback
+    import os
+    tb = traceback.extract_tb(e.__traceback__)
+    inner = tb[-1].filename if tb else ""
+    if os.sep + "nfc" + os.sep in inner:
+        return "%s-%s-setup-raises-%s" % (fam, op, exc_name(e).split("(")[0])
+    return "tie:harness-%s" % type(e).__name__
+
+
+# ------------------------------------------------------------------ the check
 def run(ck):
     ck.tables("TablesTag")   # T-tie for constants: source tables re-extracted, bridge theorems re-proved
     ck.lean("NfcVerif.Props.C16", THEOREMS)
     model = Model("drv_c16")
     from sims import retry_sims as rs
     rng = ck.rng
-    cfg = probe_cfg()
+    fast_des()
+    try:
+        cfg = probe_cfg()
+    except Exception as e:  # noqa
+        ck.fail("tie:probe", "probing the tree under test failed: %s: %s" % (type(e).__name__, e), {})
+        cfg = "111111"
     ck.notes.append("tree under test: F17 %s, F31(Type 3) %s, F32 %s, sector-select assert %s, ISO-DEP unknown CommunicationError %s"
                     % tuple("repaired" if b == "1" else "as found" for b in cfg[:5]))
     ck.notes.append("tt1.read_tlv catches the command error for %s" % ("the whole TLV (C08 repair)" if cfg[5] == "1" else "the first TLV byte only"))
     reqs, reals, meta = [], [], []
+    plans = {}
+    exhaustive_all = True
     for kind in rs.KINDS:
-        for op in OPS:
-            plan = Plan(kind, op)
+        for op in ops_of(kind):
+            try:
+                plan = Plan(kind, op)
+            except Exception as e:  # noqa
+                ck.fail("tie:plan", "%s %s: the fault-free run does not have the expected shape: %s: %s" % (kind, op, type(e).__name__, e),
+                        {"kind": kind, "op": op})
+                continue
+            plans[(kind, op)] = plan
+            if plan.base["out"].startswith("exc ") and not plan.base["out"].startswith("exc TagCommandError("):
+                ck.fail(finding_key(kind, op, plan.base["out"][4:], "", plan.base["invs"]),
+                        "%s %s without any fault raises %s" % (kind, op, plan.base["out"][4:]),
+                        {"kind": kind, "op": op, "script": "", "outcome": plan.base["out"], "log": show_log(plan.base["invs"])})
+                ck.case((kind, op, ""), False, "fault-free-failure:" + family(kind))
+                continue
             if plan.n == 0:
                 # no command is sent: only the result class is checked
                 if plan.value not in DOCUMENTED[op]:
                     ck.fail("undocumented-result", "%s %s returns %s" % (kind, op, plan.base["out"]), {"kind": kind, "op": op})
                 ck.case((kind, op, ""), False, "noop:" + family(kind))
                 continue
-            for script in scripts_for(ck, plan, rng):
-                r = execute(kind, op, script)
-                oracle(ck, plan, script, r)
-                if kind in L3ONLY:
-                    ck.case((kind, op, script), bool(script.strip("a")), "oracle-only:%s:%s" % (kind, op))
-                    continue
-                reqs.append(plan.request(cfg, script))
-                reals.append("%s # %s # %s" % (r["out"], show_log(r["invs"]), ",".join(applied_tokens(kind, r)) or "-"))
-                meta.append((kind, op, script))
+            scripts, exhaustive = scripts_for(ck, plan, rng)
+            exhaustive_all = exhaustive_all and exhaustive
+            nak = any(a == "n" for _, a in steps_of(kind, plan.base)) or op in ("protectpw", "protectrd")
+            for script in scripts:
+                for senses in (["", "0", "10"] if (nak and len(script.strip("a")) <= 1) else [""]):
+                    try:
+                        r = execute(kind, op, script, senses=senses)
+                        oracle(ck, plan, script, r, senses)
+                    except Exception as e:  # noqa
+                        # the run could not be set up or judged (activation or the fault-free prelude failed, a log of
+                        # unexpected shape): the code under test behaves in a way the harness does not know
+                        ck.fail(harness_key(e, family(kind), op), "%s %s under fault script '%s' sense results '%s': %s: %s"
+                                % (kind, op, script, senses, type(e).__name__, e), {"kind": kind, "op": op, "script": script, "senses": senses})
+                        continue
+                    if kind in L3ONLY:
+                        ck.case((kind, op, script), bool(script.strip("a")), "oracle-only:%s:%s" % (kind, op))
+                        continue
+                    reqs.append(plan.request(cfg, script, r["sensed"]))
+                    reals.append("%s # %s # %s # %s" % (r["out"], show_log(r["invs"]),
+                                                        ",".join(applied_tokens(kind, r["applied"])) or "-", r["flags"]))
+                    meta.append((kind, op, script, senses))
     replies = model.ask_many(reqs)
     bad = 0
-    for (kind, op, script), req, real, rep in zip(meta, reqs, reals, replies):
+    for (kind, op, script, senses), req, real, rep in zip(meta, reqs, reals, replies):
         fam = family(kind)
-        if fam == "t1":
-            # Type 1 write tokens of the model carry the address, the simulator logs (kind, address)
-            rep_c = rep
-            real_c = real.replace("w?", "we").replace("W?", "We")
-            rp, rl = rep_c.rsplit(" # ", 1), real_c.rsplit(" # ", 1)
-            norm = lambda s: ",".join(t.replace("wn", "we").replace("Wn", "We") for t in s.split(","))
-            same = rp[0] == rl[0] and norm(rp[1]) == norm(rl[1])
-        else:
-            same = rep == real
+        same = same_line(fam, real, rep)
         body = script.lstrip("a")
-        nontrivial = bool(body)
-        ck.case((kind, op, script), nontrivial, "%s:%s" % (fam, op),
-                sample={"kind": kind, "op": op, "script": script, "real": real[:160]})
+        nontrivial = bool(body) or bool(senses)
+        ck.case((kind, op, script, senses), nontrivial, "%s:%s" % (fam, op),
+                sample={"kind": kind, "op": op, "script": script, "senses": senses, "real": real[:160]})
         if not same:
             bad += 1
-            ck.fail("tie:retry-model", "%s %s script '%s': real %s | model %s" % (kind, op, script, real[:300], rep[:300]),
-                    {"kind": kind, "op": op, "script": script, "request": req, "real": real, "model": rep})
+            ck.fail("tie:retry-model", "%s %s script '%s' senses '%s': real %s | model %s" % (kind, op, script, senses, real[:300], rep[:300]),
+                    {"kind": kind, "op": op, "script": script, "senses": senses, "request": req, "real": real, "model": rep})
     ck.tie("retry-model", len(reqs), bad, exhaustive=False)
+    ck.notes.append("single faults (position x class x lost command / lost answer x burst 1..4) cover %s exchange position of every operation"
+                    % ("every" if exhaustive_all else "every position of the operations with at most %d exchanges and first / last / sampled positions of the longer ones"
+                       % (48 if ck.thorough else 12)))
+
+    try:
+        run_sessions(ck, model, cfg, rng, plans)
+    except Exception as e:  # noqa
+        import traceback
+        tb = traceback.extract_tb(e.__traceback__)
+        ck.fail("tie:session-aborted", "the session run could not be completed: %s: %s (%s)" % (
+            type(e).__name__, e, "; ".join("%s:%d" % (f.filename.split("/")[-1], f.lineno) for f in tb[-4:])), {})
 
     # activation under faults (tag/__init__.py:444-461): a tag object or None, never an exception
     import nfc.tag
     for kind in rs.KINDS:
-        sim0, air0, tag0 = rs.build(kind)
+        try:
+            sim0, air0, tag0 = rs.build(kind)
+        except Exception as e:  # noqa
+            ck.fail("activation-raises", "%s activation without any fault: %s: %s" % (kind, type(e).__name__, e), {"kind": kind, "script": ""})
+            continue
+        if tag0 is None:
+            ck.fail("activation-fails", "%s is not activated although nothing goes wrong" % kind, {"kind": kind, "script": ""})
+            continue
         n = len(air0.raw)
-        for p in range(n):
-            for l in "txpoc":
-                for b in (1, 2):
-                    sim = type(sim0).__new__(type(sim0))
-                    sim.__dict__.update({k: (bytearray(v) if isinstance(v, bytearray) else v) for k, v in sim0.__dict__.items()})
-                    air = rs.Air(sim)
-                    air.arm("a" * p + l * b)
-                    try:
-                        with virtual_time(air.clock):
-                            t = nfc.tag.activate(air, sim.target)
-                        res = "tag" if isinstance(t, nfc.tag.Tag) else classify(t)
-                    except Exception as e:  # noqa
-                        res = "exc " + exc_name(e)
-                    ck.case(("activate", kind, p, l, b), True, "activate:" + family(kind))
-                    if res not in ("tag", "none"):
-                        ck.fail("activation-raises", "%s activation with script '%s': %s" % (kind, "a" * p + l * b, res),
-                                {"kind": kind, "script": "a" * p + l * b})
+        nsense = len(air0.sensed)
+        cases = [("a" * p + l * b, "") for p in range(n) for l in "txpoc" for b in (1, 2)]
+        # the tag is not found again by one of the clf.sense() calls of the activation
+        cases += [(sc, "1" * k + "0") for k in range(nsense + 1) for sc in ([""] + ["a" * p + "t" for p in range(n)])]
+        for script, senses in cases:
+            sim = type(sim0).__new__(type(sim0))
+            sim.__dict__.update({k: (bytearray(v) if isinstance(v, bytearray) else v) for k, v in sim0.__dict__.items()})
+            air = rs.Air(sim)
+            air.arm(script, senses)
+            try:
+                with virtual_time(air.clock):
+                    t = nfc.tag.activate(air, sim.target)
+                res = "tag" if isinstance(t, nfc.tag.Tag) else classify(t)
+            except Exception as e:  # noqa
+                res = "exc " + exc_name(e)
+            ck.case(("activate", kind, script, senses), True, "activate:" + family(kind))
+            if res not in ("tag", "none"):
+                ck.fail("activation-raises", "%s activation with script '%s' sense results '%s': %s" % (kind, script, senses, res),
+                        {"kind": kind, "script": script, "senses": senses})
+            elif any(e[0] == "?" for e in air.log if e != "|"):
+                ck.fail("exchange-without-target", "%s activation with script '%s' sense results '%s' calls clf.exchange() after the frontend had lost its target"
+                        % (kind, script, senses), {"kind": kind, "script": script, "senses": senses})
+            elif res == "tag" and air.notarget:
+                ck.fail("activation-returns-tag-without-target", "%s activation with script '%s' sense results '%s' returns a tag object although the tag was not found again"
+                        % (kind, script, senses), {"kind": kind, "script": script, "senses": senses})
 
-    ck.rule = ("cases = (simulated tag, operation, fault script); scripts: every exchange position of the fault-free run "
+    ck.rule = ("cases = (simulated tag, operation, fault script, sense script); scripts: every exchange position of the fault-free run "
                "(all when short, first/last + sampled otherwise) x {timeout, transmission, protocol} lost before/after the tag "
-               "executed the command x burst 1..4, unknown CommunicationError classes, cut Type 3 answers, random mixed scripts; "
-               "non-trivial = the script contains at least one fault")
+               "executed the command x burst 1..4, unknown CommunicationError classes, cut Type 3 answers, pairs and triples of faults at "
+               "different positions, random mixed scripts; a failing clf.sense() where an operation re-activates the tag; sessions of 2-3 "
+               "operations on one tag object (first one with a persisting error of each class at first/last/sampled positions, the next one "
+               "with a transient fault); non-trivial = the script contains at least one fault or a failing sense")
     ck.assumptions += [
-        "which commands an operation needs (TLV walk, block lists, APDU sequence) is taken from the fault-free run of the real code on the simulated tag; that logic is the subject of C01-C03/C08/C12",
-        "the simulated tags answer a delivered command deterministically (same command, same kind of answer)",
+        "which commands an operation needs (TLV walk, block lists, APDU sequence) is taken from the fault-free run of the real code on the simulated tag (for sessions: from the fault-free run with and without a cached NDEF object); that logic is the subject of C01-C03/C08/C12",
+        "the simulated tags answer a delivered command deterministically (same command, same kind of answer; FeliCa Lite-S write with MAC: accepted once)",
         "ISO-DEP: single-block commands without S(WTX); chaining and waiting time extension are covered by C12",
         "a persisting protocol error on ISO-DEP and any error of the unacknowledged second SECTOR SELECT frame are final by design (not retried)",
+        "sessions are compared with the model up to the first operation whose command sequence depends on tag content that an earlier operation of the session may have changed; the oracle judges all of them",
     ]
     ck.trusted += ["harness/sims/retry_sims.py (tag simulators, fault-injecting frontend)", "lean/Drv/C16.lean (line protocol)"]
